@@ -553,6 +553,62 @@ class TypeDef:
     pass
 
 
+class ExternalField:
+    """`#[bpaf(external(fn), optional)] name: Option<Enum>` - a nested derived parser"""
+
+    def __init__(self, name, ty_name, fn_name, variants, explicit_fn):
+        self.name = name
+        self.ty_name = ty_name
+        self.fn_name = fn_name
+        self.variants = variants      # [(VariantName, long)]
+        self.explicit_fn = explicit_fn
+
+    def kind(self):
+        return "ext"
+
+    def arity(self):
+        return "optional"
+
+    def names(self):
+        return [], []
+
+    def derive_src(self, indent):
+        ext = "external(%s)" % self.fn_name if self.explicit_fn else "external"
+        return "%s#[bpaf(%s, optional)]\n%s%s: Option<%s>,\n" % (
+            indent, ext, indent, self.name, self.ty_name)
+
+    def manual_src(self):
+        return "manual_%s().optional()" % self.fn_name
+
+    def type_src(self):
+        d = "#[derive(Debug, Clone, PartialEq, Bpaf)]\npub enum %s {\n" % self.ty_name
+        arms = []
+        m = "pub fn manual_%s() -> impl Parser<%s> {\n" % (self.fn_name, self.ty_name)
+        for i, (vn, l) in enumerate(self.variants):
+            d += "    %s,\n" % vn
+            m += "    let v%d = long(%s).req_flag(%s::%s);\n" % (i, rust_str(l), self.ty_name, vn)
+            arms.append("v%d" % i)
+        d += "}\n"
+        m += "    construct!([%s])\n}\n" % ", ".join(arms)
+        return d + "\n" + m
+
+
+def gen_external(rng, names, ix):
+    vs = []
+    for vn in rng.sample(VARIANTS, rng.randint(2, 3)):
+        l = kebab(vn)
+        if names.take_long(l):
+            vs.append((vn, l))
+    if len(vs) < 2:
+        return None
+    explicit = rng.random() < 0.5
+    ty = "X%d" % ix
+    # without an explicit function name the field name is the function name
+    fn = "x%d" % ix
+    fname = fn if not explicit else names.ident()
+    return ExternalField(fname, ty, fn, vs, explicit)
+
+
 def gen_struct(rng, ix):
     names = Names(rng)
     t = TypeDef()
@@ -568,6 +624,14 @@ def gen_struct(rng, ix):
         t.fields = gen_fields(rng, names, tag)
         if not t.fields:
             t.fields = [gen_named_field(rng, names, tag + "f0")]
+        t.external = None
+        if rng.random() < 0.25:
+            ext = gen_external(rng, names, ix)
+            if ext is not None:
+                t.external = ext
+                # named parsers must stay in front of positional ones
+                at = next((i for i, f in enumerate(t.fields) if f.kind() == "pos"), len(t.fields))
+                t.fields.insert(at, ext)
     t.blocks = doc_blocks(rng, tag)
     t.version = rng.choice([None, None, "cargo", "lit"])
     # explicit descr/header/footer override exactly the slot they name; the doc comment's
@@ -576,7 +640,16 @@ def gen_struct(rng, ix):
     for slot in ("descr", "header", "footer"):
         if rng.random() < 0.15:
             t.explicit[slot] = "explicit %s of %s" % (slot, tag)
-    t.vectors = vectors_for(t.fields, rng)
+    t.vectors = vectors_for([f for f in t.fields if f.kind() != "ext"], rng)
+    ext = getattr(t, "external", None)
+    if ext is not None:
+        extra = []
+        for v in t.vectors[:8]:
+            for (_vn, l) in ext.variants[:2]:
+                extra.append(["--" + l] + v)
+        extra.append(["--" + ext.variants[0][1], "--" + ext.variants[1][1]])
+        extra.append(["--" + ext.variants[0][1].upper()])
+        t.vectors += extra
     return t
 
 
@@ -617,7 +690,9 @@ def struct_src(t):
     elif t.version == "lit":
         m += '.version("9.9.9")'
     m += "\n}\n"
-    return d + "\n" + m
+    ext = getattr(t, "external", None)
+    pre = ext.type_src() + "\n" if ext is not None else ""
+    return pre + d + "\n" + m
 
 
 def gen_enum(rng, ix):
@@ -656,7 +731,12 @@ def gen_enum(rng, ix):
             vectors.append([vn])
         else:
             k = rng.random()
-            if k < 0.5:
+            if 0.5 <= k < 0.62:
+                # tuple variant: unnamed field -> positional
+                v.kind = "tuple"
+                v.fields = [gen_pos_field(rng, "%sv%dp" % (tag, vi), "plain")]
+                vectors += [["word%d" % vi], ["word%d" % vi, "extra"], ["17"]]
+            elif k < 0.5:
                 v.kind = "unit"
                 v.naming = []
                 l = kebab(vn)
@@ -741,6 +821,16 @@ def enum_src(t):
                 e += ".help(%s)" % rust_str("\n".join(v.doc))
             e += ".req_flag(%s::%s)" % (t.name, v.name)
             m += "    let %s = %s;\n" % (ident, e)
+        elif v.kind == "tuple":
+            d += "    %s(\n" % v.name
+            for f in v.fields:
+                d += f.derive_src("        ")
+            d += "    ),\n"
+            m += "    let %s = {\n" % ident
+            for i, f in enumerate(v.fields):
+                m += "        let p%d = %s;\n" % (i, f.manual_src())
+            m += "        construct!(%s::%s(%s))\n    };\n" % (
+                t.name, v.name, ", ".join("p%d" % i for i in range(len(v.fields))))
         elif v.kind == "fields":
             d += "    %s {\n" % v.name
             for f in v.fields:
